@@ -253,6 +253,7 @@ def cases(draw, ops=None, max_calls=6, modes=(False, True), max_syms=14, allow_m
         'maxread': draw(st.sampled_from([2000, 2000, 1, 2, 3, 7])),
         'sws': inst_w,
         'ic': draw(st.integers(0, 3)) == 0,
+        'shared_list': draw(st.integers(0, 3)) == 0,
         'calls': calls,
     }
 
@@ -407,6 +408,7 @@ def execute(case):
     text_mode = case['enc'] is not None
     sp, mo, clock = make_pair(case)
     cur_sws = case['sws']          # the instance attribute may be changed in mid-history
+    shared_list = []
     with scripted.virtual_time(clock):
         for i, c in enumerate(case['calls']):
             st_ = Step()
@@ -432,6 +434,11 @@ def execute(case):
                         m = _model_expect(mo, entries, W, c['timeout'] == 0)
                         if op == 'expect_list':
                             cpl = sp.compile_pattern_list(arg)
+                            if case.get('shared_list'):
+                                # one list object for the whole history, edited in place between the calls (a caller
+                                # keeping its precompiled list and inserting / replacing entries)
+                                shared_list[:] = cpl
+                                cpl = shared_list
                             st_.native = cpl
                             ret = sp.expect_list(cpl, timeout=c['timeout'], searchwindowsize=c['w'])
                         elif exact:
